@@ -22,6 +22,11 @@ NEGATIVE_CONTROLS = [
     "nc6_more_points_moved_lines: additional VERIF_POINTs with unknown names inside and outside the sections (sched.loop, "
     "sched.before-pending-insert, object.begin, nextcheck.begin, helper.locked, other.subsystem.point), braces/comments, and "
     "IncreasePendingChecks() moved into the scheduler's critical section before the sched.pick point",
+    "nc7_guard_set_reordered (round 3, applied with tools/mutate.sh): the scheduler's guard set reads all its inputs into locals first (own flag, the "
+    "global flag of the object's type through ?:, period, dependency) and tests them in another order (period, flags in one combined test for hosts "
+    "and services, dependency last); ObjectHandler's zone test in negated form",
+    "nc8_plugin_counter_order (round 3): PluginCheckTask takes its unit before bumping CurrentConcurrentChecks and through a named boolean; "
+    "ProcessFinishedHandler gives it back after trimming the output (script=plugin stays silent: pi is logged after the real +1, pd before the real -1)",
 ]
 # Contract of the H3 points that the trace validation does rely on (a maintainer moving them breaks the tie, not the property): the points
 # sched.pick/sched.skip/helper.finish/object.done/nextcheck.reindex are reached after the section's last change of the two sets and before the
@@ -31,9 +36,10 @@ NEGATIVE_CONTROLS = [
 class C04(Check):
     prop = "C04"
     required_theorems = ["one_location", "key_tracks_next_check", "single_flight",
-                         "single_flight_counterexample_with_passive_result", "concurrency_bound", "next_check_window",
-                         "forced_runs", "skip_iff", "progress", "sched_keeps_scheduled", "model_trace_meets_spec",
-                         "model_trace_counterexample_with_passive_result", "counter_exceeds_max_with_plugins"]
+                         "passive_result_pre_fix_breaks_single_flight", "concurrency_bound", "next_check_window",
+                         "forced_runs", "skip_iff", "eligible_runs", "progress", "sched_keeps_scheduled", "sched_takes_earliest", "pending_has_helper",
+                         "completion_always_possible", "no_slot_leak", "model_trace_meets_spec",
+                         "counter_exceeds_max_with_plugins"]
     technique = ("Lean 4 proof (invariants by induction over arbitrary interleavings of a transition system whose actions are the "
                  "lock-protected sections of CheckerComponent, the single-flight flag of Checkable::ExecuteCheck and the attribute writes "
                  "that happen outside the checker's mutex; exact rational arithmetic for UpdateNextCheck); correspondence by trace "
@@ -45,27 +51,42 @@ class C04(Check):
                   "window between an attribute write and the ObjectHandler call that follows it, a checkable is schedulable iff it is in exactly "
                   "one of them (pause, resume, SetNextCheck, force, activation, deactivation at any moment drop nothing and duplicate nothing); "
                   "the idle key equals next_check once the change handler has run; at most one execution per checkable between the "
-                  "m_CheckRunning test-and-set and its result (under the property's event alphabet; the counterexample with a passive result is "
-                  "a theorem too); running command bodies + spawned, unfinished plugin processes <= max_concurrent_checks and <= the pending-checks counter, which equals the units held by helpers plus PluginCheckTask's own +1/-1 balance (the counter itself may exceed the limit: theorem counter_exceeds_max_with_plugins); the whole observed trace of the model satisfies the executable specification (model_trace_meets_spec); a forced check is dispatched "
-                  "whatever reachability / enable_active_checks / check period say; no stuck state (a due idle checkable and a free slot enable "
+                  "m_CheckRunning test-and-set and its result, passive results at any moment included (F-C04c fixed by 1c45f06; the pre-fix transition is kept as a "
+                  "documentation theorem); running command bodies + spawned, unfinished plugin processes <= max_concurrent_checks and <= the pending-checks counter, which equals the units held by helpers plus PluginCheckTask's own +1/-1 balance (the counter itself may exceed the limit: theorem counter_exceeds_max_with_plugins); the whole observed trace of the model satisfies the executable specification (model_trace_meets_spec); a forced check is dispatched "
+                  "whatever reachability / enable_active_checks / check period say; eligible_runs: for every enabled scheduler section the guard set "
+                  "(explicit disable_checks dependency, the object's own enable_active_checks AND the global flag of ITS type - enable_host_checks for "
+                  "hosts, enable_service_checks for services -, check period) dispatches iff the check is forced or eligible in the property's terms and "
+                  "skips (stays idle) iff neither - a host's state is not among the facts, a service of a DOWN host keeps being checked; "
+                  "pending_has_helper: in every reachable state a checkable in the pending set has a dispatched helper whose final section takes it out "
+                  "again and, if active, back into the idle set (nothing is stranded in pending); completion_always_possible: from every reachable state the completion path of any checkable can be run to its end with that "
+                  "checkable's own actions alone (each enabled regardless of all other checkables), after which it is not pending and - if schedulable and its "
+                  "handlers have run - idle again; sched_takes_earliest: the scheduler never takes an entry while an idle one has an earlier key; no_slot_leak: whenever nothing is in flight the "
+                  "pending-checks counter is 0, whatever happened to the checkables meanwhile; no stuck state (a due idle checkable and a free slot enable "
                   "the scheduler for the smallest key); UpdateNextCheck yields now < next <= now + interval for all now, offset >= 0, interval > 0. "
                   "The model is tied to the code by validating the real scheduler's section-by-section trace against it (every section enabled, "
                   "same membership, key and counter discipline afterwards), by the harness's own monitor of command start/end per checkable, by "
                   "a quiescent snapshot after every scenario, and by comparing UpdateNextCheck with the exact model on tens of thousands of "
                   "(now, offset, interval) triples under the virtual clock; the specification predicate is evaluated on the implementation's "
                   "own observations, including at EVERY logged section: once a pause / resume / activation / deactivation has completed, a checkable that is "
-                  "not this node's to schedule is in neither set and one that is, is in one (clauses scheduled_while_not_responsible / dropped_from_schedule). PARTIAL: real-time liveness (a due check starts as soon as a slot is free) is only measured (latency "
+                  "not this node's to schedule (paused, inactive, or in a foreign zone) is in neither set and one that is, is in one (clauses scheduled_while_not_responsible / dropped_from_schedule); "
+                  "at every scheduler decision the harness records, from its OWN bookkeeping written under the checker's mutex, the object's flag, both global flags, "
+                  "the period and the state of the gate host of its disable_checks dependency, and the specification demands: forced => executed, eligible => "
+                  "executed (eligible_skipped), unforced and ineligible => not executed (ran_although_disabled); at quiescence nothing is left in the pending set "
+                  "(quiescent_pending) and the implementation's pending-checks counter is 0 (slot_leaked). PARTIAL: real-time liveness (a due check starts as soon as a slot is free) is only measured (latency "
                   "histogram, overdue bound), not proved")
     level_note = ("Trusted: Lean kernel (+ propext, Classical.choice, Quot.sound), sampled trace validation in real time (seeded scenarios; thread "
                   "schedules are not reproducible), harness/driver, std::mutex and the thread pool. Not modelled: interleavings finer than a "
-                  "critical section (data races), plugin processes' own +1/-1 on the pending-checks counter (PluginCheckTask), remote checks "
-                  "(command_endpoint), passive/cluster results during an execution (Q-C04: they reset the single-flight flag), dependencies "
-                  "(reachability is always true in the harness), IEEE rounding in UpdateNextCheck (agreement within 1 us is checked), "
+                  "critical section (data races), remote checks "
+                  "(command_endpoint), ACTIVE results relayed by the cluster during a local execution (they still reset the single-flight flag), the evaluation of "
+                  "dependencies / time periods themselves (C07/C08: the model takes 'no disable_checks dependency failed' and 'period open' as recorded facts; the "
+                  "harness makes them true/false through gate hosts and an always-open / always-closed period), UpdateNextCheck as a transition (the "
+                  "re-arming value is taken from the implementation and checked against next_check_window), Checkable::Start's initial spread, IEEE rounding in UpdateNextCheck (agreement within 1 us is checked), "
                   "wall-clock liveness (measured only).")
     trusted_base = [
         "modelled, not verified: CheckerComponent::CheckThreadProc/ExecuteCheckHelper/ObjectHandler/NextCheckChangedHandler at the granularity of "
-        "their critical sections, the m_CheckRunning test-and-set/reset, Checkable::UpdateNextCheck; everything else of ExecuteCheck / "
-        "ProcessCheckResult runs for real in the harness but is not in the model",
+        "their critical sections, the guard set of CheckThreadProc:142-176 as a function of six recorded facts (is-service, dependency ok, own flag, the two "
+        "global flags, period open), the m_CheckRunning test-and-set/reset, PluginCheckTask's +1/-1, Checkable::UpdateNextCheck (pure function); "
+        "everything else of ExecuteCheck / ProcessCheckResult / IsReachable / TimePeriod::IsInside runs for real in the harness but is not in the model",
         "hook H3 (lib/base/verif-hooks.hpp, add-only under #ifdef ICINGA2_VERIF): VERIF_POINT calls inside the critical sections; the harness "
         "reads m_IdleCheckables/m_PendingCheckables (private, via explicit template instantiation) while the section's lock is still held",
         "std::mutex / ObjectLock provide mutual exclusion, the thread pool runs every queued callback, boost::multi_index keeps its order",
@@ -81,13 +102,26 @@ class C04(Check):
         "(before the fix: 0.42 s, after: ~0.1 ms), which is robust against single stalls; (d) the same probe with A's command being a plugin-like "
         "process (script=wakeup_async): the slot is freed by the finished process, which does not wake the scheduler when A is not idle - known finding F-C04b; offered load of the random scenarios is kept below "
         "~40 % of max_concurrent_checks",
+        "(e) script=wakeup_resched (round 3): A is the front of the idle queue (due in 600 s), B behind it is rescheduled to now; the scheduler must take B "
+        "without any further event (order-based verdict, see below)",
+        "the facts of the scheduler's guard set are the harness's own bookkeeping: enable_active_checks, check_period ('' / always open / always closed), "
+        "enable_host_checks / enable_service_checks and the gate hosts' state are written together with that bookkeeping while holding the checker's mutex, "
+        "so the scheduler's section reads exactly what the bookkeeping says; explicit dependencies: disable_checks, state filter Up, parent = a gate host "
+        "that is never scheduled and whose hard state only the harness sets",
+        "script=plugin runs the real PluginCheckTask::ScriptFunc / ProcessFinishedHandler with real processes; its two counter operations cannot be "
+        "logged atomically, so `pi` is logged after the real +1 and `pd` before the real -1: the counter the driver derives is never above the real one "
+        "(no false concurrency_slot), at the price of not seeing a dispatch that used a unit for a few microseconds longer",
         "at most one harness operation per checkable is in flight at a time (operations on different checkables, helpers and the scheduler run concurrently)",
         "check commands either deliver their result from inside the command function (or throw), or behave like PluginCheckTask: hand the work to a "
         "'process' (own thread), take their own +1 on the pending-checks counter after the spawn and give it back when the process finished, "
         "before the result is processed; the harness does these two counter operations while holding the checker's mutex so that the trace order "
-        "is the order in which the scheduler saw the counter; commands that never deliver a result and passive results during an execution "
-        "(Q-C04, an explicit action of the model outside the property's alphabet) are not generated",
+        "is the order in which the scheduler saw the counter; commands that never deliver a result are not generated; passive results during an execution only in script=passive_during_check",
         "UpdateNextCheck is compared on times/intervals that are multiples of 1/64 s (so that fmod's arguments are exact in binary64) with a tolerance of 1 us",
+        "F-C04c (fixed by 1c45f06, was Q-C04): script=passive_during_check stays as a regression scenario - the first execution is held by a latch until the "
+        "forced helper has come back, so the verdict (no second execution) does not depend on durations",
+        "wall-clock verdicts: liveness_overdue and the two 0.5 s-poll probes (wakeup, wakeup_async: median >= 0.15 s) are evaluated only when the canary threads saw no "
+        "stall (else counted as inconclusive); wakeup_resched is order-based (the harness waits 8 s for the rescheduled entry before any other event; two "
+        "unanswered reschedules fail, inconclusive if a canary overslept >= 4 s); every other clause is about order and state, not time",
         "thread schedules are not reproducible: --replay re-runs the scenario with the same seed and parameters several times",
     ]
     use_leanchecker = True
@@ -131,7 +165,7 @@ class C04(Check):
                     break
                 if l.startswith("C "):
                     ctx = []
-                elif l.startswith(("E pick", "E skip", "E dec", "E fin")):
+                elif l.startswith(("E pick", "E skip", "E dec", "E fin", "E nc")):
                     ctx.append(f"{n}: {l.rstrip()}")
                     ctx = ctx[-8:]
         return ctx
@@ -175,7 +209,8 @@ class C04(Check):
             case = self._context(save, int(kv["line"]), kv.get("cid", "0"))
             # arithmetic lines replay deterministically; scenarios are re-run with the same seed (threads: best effort)
             arith = case[0].split()[2:3] == ["arith"]
-            if spec and what in ("liveness_wakeup_when_slot_freed", "liveness_wakeup_when_process_finished"):
+            if spec and what in ("liveness_wakeup_when_slot_freed", "liveness_wakeup_when_process_finished",
+                                 "liveness_wakeup_when_rescheduled"):
                 # context = the scheduler's and the helpers' sections just before the late dispatch (all checkables)
                 case = case[:1] + self._sections_before(save, int(kv["line"]))
             tries = 0 if (spec and what == "liveness_overdue") else (1 if arith else 2)
@@ -223,10 +258,10 @@ class C04(Check):
         res.exhaustive = False
         res.rule = ("corpus/C04/*.ops, then from one PRNG seeded by VERIF_SEED: 40 000 (300 000 thorough) UpdateNextCheck comparisons under the "
                     "virtual clock (now small / medium / around 1.7e9 s, intervals <= 1 s, = 1 s, just above, whole seconds, minutes, arbitrary; "
-                    "offsets 0 .. 2^31; hard and soft-with-result state) and 15 (24) real-time scenarios of 5 s (75 s) plus 2 (6) scripted wake-up probes (helper / plugin-process variant) and 1 (2) skip_pause probes (an OnNextCheckChanged slot pauses a checkable from inside the window in which the scheduler's skip path has released its mutex; it must stay out of both sets), 5 (6) at a time, one process "
+                    "offsets 0 .. 2^31; hard and soft-with-result state) and 15 (24) real-time scenarios of 5 s (75 s) plus 2 (6) scripted wake-up probes (helper / plugin-process variant), 1 (2) wakeup_resched probes (a non-front idle entry is rescheduled to now), 1 (2) eligibility probes (host hard DOWN with a service, a host behind a disable_checks dependency; global flags, own flag, period and gate switched off and on with forced checks in between), 1 (2) plugin probes (8+2 checkables whose command is the real PluginCheckTask running /bin/sh processes, max_concurrent_checks=2, 2 mutator threads) 1 passive_during_check probe (regression of F-C04c) and 1 (2) skip_pause probes (an OnNextCheckChanged slot pauses a checkable from inside the window in which the scheduler's skip path has released its mutex; it must stay out of both sets), 5 (6) at a time, one process "
                     "each: 5-300 hosts plus up to n/4 created at run time, max_concurrent_checks in {1, 2, 4, 16}, check intervals 30 ms - 3 s "
-                    "(some above 1 s so that the offset adjustment is live), retry intervals, max_check_attempts 1-3, 10 % with active checks "
-                    "disabled, 10 % with a closed check period, commands that sleep (mean chosen for ~40 % load), return OK / alternate / fail / "
+                    "(some above 1 s so that the offset adjustment is live), retry intervals, max_check_attempts 1-3, one third Services of an earlier host of the scenario (hosts that are always / alternately DOWN included), 1 in 12 in a foreign zone, 1 in 6 behind a disable_checks dependency on one of two gate hosts, 10 % with active checks "
+                    "disabled, 10 % with a closed check period (one mutator operation in ten toggles the object's flag, its period, a global flag or a gate at run time), commands that sleep (mean chosen for ~40 % load), return OK / alternate / fail / "
                     "throw, one third of them asynchronous like PluginCheckTask (own thread per 'process', own +1/-1, sometimes finishing before the +1); 1-4 mutator threads fire pause, resume, bounce (pause+resume+SetNextCheck(now)), SetNextCheck (now, past, near "
                     "future, one interval), force (+SetNextCheck(now)), deactivate, activate+resume of pool objects, OnPausedChanged without a change, one in four aimed at a "
                     "checkable whose command is executing; seeded delays/yields at the schedule points inside the critical sections. "
